@@ -2376,7 +2376,7 @@ def coarsen(reduction, x, axes, trim_excess=False, **kwargs):
     if new_chunks:
         x = x.rechunk(new_chunks)
 
-    name = "coarsen-" + tokenize(reduction, x, axes, trim_excess)
+    name = "coarsen-" + tokenize(reduction, x, axes, trim_excess, kwargs)
     dsk = {
         (name,)
         + key[1:]: (apply, chunk.coarsen, [reduction, key, axes, trim_excess], kwargs)
